@@ -387,6 +387,9 @@ func (g *G) applyTemplate(property string, p *grl.Program, facts *grl.Facts) str
 			return "flip"
 		}
 	case "C04":
+		if g.R.Chance(1, 4) && g.movingIndexTemplate(p, facts) {
+			return "moving-index"
+		}
 		if g.R.Chance(1, 2) {
 			g.convTemplate(p)
 			return "conversions"
@@ -566,5 +569,64 @@ func (g *G) repairTemplate(p *grl.Program, facts *grl.Facts) bool {
 	rb := &grl.Rule{Name: "Pb", Salience: sal(g.R.PickInt64(0, 1, 5)), When: grl.LitBool(true),
 		Then: []*grl.Action{repair, {K: "retract", Name: "Pb"}}}
 	p.Rules = append(p.Rules, ra, rb)
+	return true
+}
+
+
+// movingIndexTemplate (C04): the destination's selector (or key) is computed from a variable that
+// the PREVIOUS statement of the same action list changed, and was already resolved earlier in the
+// run (the condition reads the same element).
+func (g *G) movingIndexTemplate(p *grl.Program, facts *grl.Facts) bool {
+	m := &grl.Model{S: grl.NewState(facts)}
+	f := g.R.PickStr("F", "G")
+	useMap := g.R.Chance(1, 3)
+	r := &grl.Rule{Name: "Mi", Salience: sal(int64(g.R.Intn(3)))}
+	if useMap {
+		// key variable S2 moves from k1 to k2
+		key := grl.P(f + ".S2")
+		dest := grl.P(f + ".M").Idx(grl.PathE(key))
+		r.When = grl.Bin("||", grl.Bin(">=", grl.PathE(grl.ClonePath(dest)), grl.LitInt(0-100000)), grl.LitBool(true))
+		r.Then = []*grl.Action{
+			{K: "assign", Path: grl.ClonePath(key), Op: "=", E: grl.LitStr("k1")},
+			{K: "assign", Path: grl.ClonePath(dest), Op: "=", E: grl.LitInt(71)},
+			{K: "assign", Path: grl.ClonePath(key), Op: "=", E: grl.LitStr("k2")},
+			{K: "assign", Path: grl.ClonePath(dest), Op: g.R.PickStr("=", "+="), E: grl.LitInt(72)},
+			{K: "retract", Name: "Mi"},
+		}
+	} else {
+		ivar := g.R.PickStr(f+".I8", f+".P.X", "N")
+		if _, err := m.Eval(grl.PathE(grl.P(ivar))); err != nil {
+			return false
+		}
+		arr := g.R.PickStr(".A", ".AS", ".AF")
+		idx := func() *grl.Expr {
+			if g.R.Chance(1, 2) {
+				return grl.PathE(grl.P(ivar))
+			}
+			return grl.Bin("+", grl.PathE(grl.P(ivar)), grl.LitInt(0))
+		}
+		ix := idx()
+		dest := grl.P(f + arr).Idx(ix)
+		var v1, v2 *grl.Expr
+		switch arr {
+		case ".A":
+			v1, v2 = grl.LitInt(71), grl.LitInt(72)
+		case ".AS":
+			v1, v2 = grl.LitStr("one"), grl.LitStr("two")
+		default:
+			v1, v2 = grl.LitFloat(7.25), grl.LitFloat(8.5)
+		}
+		r.When = grl.Bin("||", grl.Bin("!=", grl.PathE(grl.ClonePath(dest)), v1), grl.LitBool(true))
+		r.Then = []*grl.Action{
+			{K: "assign", Path: grl.P(ivar), Op: "=", E: grl.LitInt(0)},
+			{K: "assign", Path: grl.ClonePath(dest), Op: "=", E: v1},
+			{K: "assign", Path: grl.P(ivar), Op: g.R.PickStr("=", "+="), E: grl.LitInt(1)},
+			{K: "assign", Path: grl.ClonePath(dest), Op: "=", E: v2},
+			{K: "assign", Path: grl.P(ivar), Op: "+=", E: grl.LitInt(1)},
+			{K: "assign", Path: grl.ClonePath(dest), Op: "=", E: grl.CloneExpr(v1)},
+			{K: "retract", Name: "Mi"},
+		}
+	}
+	p.Rules = append(p.Rules, r)
 	return true
 }
